@@ -2,7 +2,7 @@
 import json
 import os
 
-from . import decode, gen_range
+from . import decode, gen_ae, gen_precond, gen_range, gen_serve
 
 # ---------------------------------------------------------------------------------------
 # units
@@ -45,24 +45,50 @@ def unit_range():
     }
 
 
+def _serve_gen(hdir, tier):
+    gen_serve.generate(tier, os.path.join(hdir, "serve_gen.rs"), os.path.join(hdir, "serve_meta.json"))
+    gen_precond.generate(tier, os.path.join(hdir, "precond_gen.rs"), os.path.join(hdir, "precond_meta.json"))
+
+
+def _serve_meta(hdir):
+    return {
+        "serve": json.load(open(os.path.join(hdir, "serve_meta.json"))),
+        "precond": json.load(open(os.path.join(hdir, "precond_meta.json"))),
+    }
+
+
 def _serve_decode(short, vals, meta):
-    if short == "serve_plain":
-        return decode.decode_serve_plain(vals)
-    if short.startswith("serve_range1_"):
-        form = {"fl": 0, "open": 1, "suffix": 2}[short.split("_")[-1]]
-        return decode.decode_serve_range1(form, vals)
+    if short in meta["serve"]:
+        return decode.decode_serve_cfg(meta["serve"][short], vals)
+    if short in meta["precond"]:
+        return decode.decode_precond(meta["precond"][short], vals)
     return None
 
 
-def unit_serve(harnesses, panic_tags=("C13",)):
+KANI_LIGHT = ["--no-memory-safety-checks", "--no-assertion-reach-checks", "-Z", "unstable-options"]
+
+
+def unit_serve(select, panic_tags=("C13",), precond=False):
+    """select(cfg) -> bool picks generated serve_cfg instances; precond adds the precond_gNN groups."""
+
+    def harnesses(tier, meta):
+        hs = ["serving::verif_h::gen::" + n for n, c in sorted(meta["serve"].items()) if select(c)]
+        if precond:
+            hs += ["serving::verif_h::pgen::" + n for n in sorted(meta["precond"])]
+        return hs
+
     return {
         "name": "serve",
         "config": "shim",
         "inject": {"serving.rs": "serving_h.rs"},
-        "harnesses": lambda tier, meta: ["serving::verif_h::" + h for h in (harnesses[tier] if isinstance(harnesses, dict) else harnesses)],
+        "gen_fn": _serve_gen,
+        "load_meta": _serve_meta,
+        "harnesses": harnesses,
         "decode": _serve_decode,
         "panic_tags": list(panic_tags),
-        "timeout": {"quick": 900, "thorough": 3000},
+        "extra": KANI_LIGHT,
+        "weight": 3,
+        "timeout": {"quick": 1500, "thorough": 3600},
     }
 
 
@@ -76,23 +102,302 @@ MODEL_ASSUMPTIONS = [
 ]
 
 PROPS = {}
+NOT_APPLICABLE = {
+    "C09": "needs symbolic execution of deflate + CRC-32 + an inflater (input-length dependent loops over hash tables): out of reach for a bounded model checker here; the chunk writer underneath is covered by C08/C11, the choice of coding by C17 (flate2 is a marker model)",
+    "C18": "ChunkedReadFile needs std::fs::File/Metadata from the OS, tokio::block_in_place and libc::pread; the unfold/async stream around a stubbed pread was not brought within reach of the model checker in the time available (see DESIGN.md section 7)",
+}
+
+
+def _simple_unit(name, inject, harnesses, decode_fn=None, gen_fn=None, load_meta=None, features=(), panic_tags=("C13",), extra=None, timeout=None):
+    return {
+        "name": name,
+        "config": "shim",
+        "inject": inject,
+        "gen_fn": gen_fn,
+        "load_meta": load_meta,
+        "features": list(features),
+        "harnesses": harnesses,
+        "decode": decode_fn or (lambda short, vals, meta: None),
+        "panic_tags": list(panic_tags),
+        "extra": extra if extra is not None else KANI_LIGHT,
+        "timeout": timeout or {"quick": 1500, "thorough": 3600},
+    }
+
+
+def unit_body(names, panic_tags=("C13",)):
+    return _simple_unit("body", {"body.rs": "body_h.rs"}, lambda tier, meta: ["body::verif_h::" + n for n in names],
+                        decode_fn=decode.decode_body, panic_tags=panic_tags)
+
+
+def unit_etag(names):
+    return _simple_unit("etag", {"etag.rs": "etag_h.rs"}, lambda tier, meta: ["etag::verif_h::" + n for n in names],
+                        decode_fn=decode.decode_etag, panic_tags=("C13", "C04"))
+
+
+def _ae_gen(hdir, tier):
+    gen_ae.generate(tier, os.path.join(hdir, "ae_gen.rs"), os.path.join(hdir, "ae_meta.json"))
+
+
+def unit_lib():
+    def hs(tier, meta):
+        return ["verif_h::qvalue_sym", "verif_h::ae_absent"] + ["verif_h::gen::" + n for n in sorted(meta["sk"])] + ["verif_h::gen::" + n for n in sorted(meta["lex"])]
+    return _simple_unit("lib", {"lib.rs": "lib_h.rs"}, hs, decode_fn=decode.decode_ae, gen_fn=_ae_gen,
+                        load_meta=lambda hdir: json.load(open(os.path.join(hdir, "ae_meta.json"))), panic_tags=("C13", "C16"))
+
+
+def unit_gzip(names, panic_tags=("C13",)):
+    return _simple_unit("gzip", {"gzip.rs": "gzip_h.rs"}, lambda tier, meta: ["gzip::verif_h::" + n for n in names],
+                        decode_fn=decode.decode_gzip, panic_tags=panic_tags)
+
+
+def unit_chunker(names, panic_tags=("C13",)):
+    return _simple_unit("chunker", {"chunker.rs": "chunker_h.rs"}, lambda tier, meta: ["chunker::verif_h::" + (n[tier] if isinstance(n, dict) else n) for n in names],
+                        decode_fn=decode.decode_chunker, panic_tags=panic_tags)
+
+
+def unit_dir():
+    return _simple_unit("dir", {"dir.rs": "dir_h.rs"}, lambda tier, meta: ["dir::verif_h::validate_path_sym"],
+                        decode_fn=decode.decode_dir, features=("dir",), panic_tags=("C13", "C19"))
+
+
+SB_BUILD = ["sb_build_absent", "sb_build_gzip", "sb_build_identity", "sb_build_gzip_q0", "sb_build_star",
+            "sb_build_pref_gzip", "sb_build_pref_identity", "sb_build_others", "sb_build_empty"]
+
+LEVEL = ("Bounded model checking of the real code: the compiled functions are executed symbolically (Kani/CBMC, SAT) "
+         "with the inputs the property quantifies over left symbolic inside the stated bounds; the verdict covers every "
+         "value inside the bounds and nothing outside. Counterexamples are replayed against the real build first.")
+
+
+def g(*groups, methods=("GET", "HEAD"), ir=None):
+    def sel(c):
+        return c["group"] in groups and c["method"] in methods and (ir is None or c["ir"] in ir)
+    return sel
+
+
+def quick_cap(sel, n):
+    """In the quick tier keep the first n matching instances (sorted by name)."""
+    return sel, n
+
+
+PROPS["C01"] = {
+    "units": lambda tier, seed: [
+        unit_serve(g("full", "single", "multi", "unsat", "m405", methods=("GET", "POST", "EXT"), ir=("absent",))),
+        unit_body(["exactlen_honour"]),
+    ],
+    "explanation": "serve() is executed for every structural request/entity configuration generated by vlib/gen_serve.py "
+    "(method x ETag kind x modification time x entity headers x If-Range variant x what the range resolver answers) with "
+    "entity length, range positions, clock and the entity's chunking symbolic; Content-Length (parsed back) is compared "
+    "with the body's exact size hint and the range length; the length-checking stream is executed against every "
+    "contract-honouring inner stream of <= 4 events + tail (Sigma delivered <= announced at every step, = on clean end).",
+    "functions": ["serving::serve", "serving::serve_inner", "serving::prepare_multipart", "serving::MultipartStream::poll_next", "body::ExactLenStream::poll_next", "body::Body::size_hint", "body::Body::poll_frame"],
+    "bounds": {"ranges": "0, 1 or 2 satisfiable ranges (3 in the thorough tier)", "numbers": "all u64 consistent with the resolver's contract", "entity stream": "2 scripted events (Pending / chunk of any length / error) per get_range call, then the remainder in one chunk", "polls": "2 per single body inside serve(), 9 in the stream-level harness, 12 for multipart"},
+    "outside": ["more than 3 ranges", "longer chunk scripts", "decimal rendering of numbers is std's (numeral model, see assumptions)"],
+    "assumptions": MODEL_ASSUMPTIONS,
+}
+PROPS["C02"] = dict(PROPS["C01"], units=lambda tier, seed: [
+    unit_serve(g("full", "single", methods=("GET",))),
+    unit_body(["exactlen_honour"]),
+])
+PROPS["C02"]["explanation"] = ("Same executions as C01 for complete and single-range GET responses: the harness entity's chunks "
+    "denote entity byte positions, so the body is compared position by position with the range named by Content-Range "
+    "(parsed back) and with the argument of Entity::get_range; contiguity is asserted frame by frame.")
 
 PROPS["C03"] = {
     "units": lambda tier, seed: [
         unit_range(),
-        unit_serve(["serve_plain", "serve_range1_fl", "serve_range1_open", "serve_range1_suffix"], panic_tags=("C13", "C03")),
+        unit_serve(g("unsat", "single", "multi", ir=("absent",)), panic_tags=("C13", "C03")),
     ],
     "explanation": "range::parse is executed symbolically on generated skeleton texts (1..3 specs, each of the three "
     "forms, optional whitespace after commas) whose numbers are free 64-bit values (integer parser stubbed) "
     "and compared with an independent RFC 7233 resolution for every entity length; near-miss texts go "
-    "through the real integer parser; serve() is executed for 0/1-spec requests and its status, "
-    "Content-Range, Content-Length and body are compared with the same model.",
-    "functions": ["range::parse", "serving::serve", "serving::serve_inner", "body::ExactLenStream::poll_next"],
+    "through the real integer parser; serve() is executed with the resolver's answer symbolic (0, 1 or 2 ranges) and its "
+    "status, Content-Range, Content-Length, multipart-vs-200 decision and body are compared with the same model. The stub "
+    "records that serve() hands the Range header and the entity length to the resolver, which composes the two halves.",
+    "functions": ["range::parse", "serving::serve", "serving::serve_inner", "serving::prepare_multipart"],
     "bounds": {
         "quick": {"specs": "1..3 (27 skeletons: all 1- and 2-spec shapes with ',' and ', '; 3 three-spec shapes)", "numbers": "all u64 + 'does not fit'", "entity length": "all u64", "near-miss texts": 47},
         "thorough": {"specs": "1..3 (all shapes, six whitespace variants)", "numbers": "all u64 + 'does not fit'", "entity length": "all u64", "near-miss texts": 47},
     },
-    "outside": ["more than 3 specs", "whitespace before commas / around the first spec", "header text that is not one of the generated shapes (fully symbolic text is out of reach)", "multipart dispatch thresholds are checked under C06's harnesses"],
+    "outside": ["more than 3 specs", "whitespace before commas / around the first spec", "header text that is not one of the generated shapes (fully symbolic text is out of reach)"],
     "assumptions": MODEL_ASSUMPTIONS + ["the integer parser stub returns an arbitrary u64 or a parse error for each placeholder token, and parses any other text like the real parser"],
-    "samples": lambda units: [a["text"] for u in units if u.get("meta") for g in sorted(u["meta"]["arith"]) for a in u["meta"]["arith"][g]],
+    "samples": lambda units: [a["text"] for u in units if u.get("meta") and "arith" in u["meta"] for gname in sorted(u["meta"]["arith"]) for a in u["meta"]["arith"][gname]],
+}
+
+PROPS["C04"] = {
+    "units": lambda tier, seed: [
+        unit_serve(lambda c: False, panic_tags=("C13", "C04"), precond=True),
+        unit_etag(["etag_eq_sym", "etag_list_sym", "etag_match_sym"]),
+    ],
+    "explanation": "parse_modified_hdrs is executed for every structural combination generated by vlib/gen_precond.py (entity ETag "
+    "kind x If-Match / If-None-Match text from a list of 10 (14) tag-list shapes incl. `*`, weak tags, tags containing ', ' x "
+    "presence of each date header) with the modification time (seconds AND nanoseconds) and both dates symbolic, and compared "
+    "with an RFC 7232 section 6 model; the comparison functions and the tag-list iterator are executed on fully symbolic bytes.",
+    "functions": ["serving::parse_modified_hdrs", "etag::any_match", "etag::none_match", "etag::List::next", "etag::weak_eq", "etag::strong_eq"],
+    "bounds": {"tag lists": "generated shapes of 1..2 tags (1..4 thorough); symbolic lists up to 9 bytes / 4 tags", "dates": "all whole seconds up to year 9999", "mtime": "all (secs, nanos) up to year 9999"},
+    "outside": ["malformed validators (only 'well-formed' is in the property)", "the mapping of the two decisions to 412/304 inside serve() is covered by C14's harnesses"],
+    "assumptions": MODEL_ASSUMPTIONS + ["httpdate model: parse(fmt(t)) = t truncated to the second; every parsed date is a whole second"],
+}
+
+PROPS["C05"] = {
+    "units": lambda tier, seed: [
+        unit_serve(g("single", "multi", "unsat", ir=("same", "other", "weak", "date")), panic_tags=("C13",)),
+        unit_etag(["etag_eq_sym"]),
+    ],
+    "explanation": "serve() with Range + If-Range in {entity's own tag (strong / weak / none), another tag, weak variant, the served "
+    "Last-Modified date}: the range resolver stub records whether serve() handed it the Range header; asserted: only for a "
+    "byte-identical strong tag; otherwise complete 200 without Content-Range; 206 under If-Range carries no entity headers. "
+    "strong_eq is executed on symbolic bytes (byte identity and not weak).",
+    "functions": ["serving::serve_inner (If-Range gate)", "etag::strong_eq"],
+    "bounds": {"If-Range": "5 variants x ETag kinds", "ranges": "1 or 2"},
+    "outside": ["If-Range values other than the generated variants"],
+    "assumptions": MODEL_ASSUMPTIONS,
+}
+
+PROPS["C06"] = {
+    "units": lambda tier, seed: [unit_serve(g("multi"))],
+    "explanation": "serve() with two (thorough: three) symbolic satisfiable ranges (overlapping, adjacent, duplicated, out of order all "
+    "allowed), entity headers 0..2, with/without matching If-Range: Content-Type, absence of top-level Content-Range, and the "
+    "whole frame sequence (part header bytes compared field by field, entity bytes position by position, closing delimiter) "
+    "and Content-Length = sum of frame lengths are asserted; 413 only if the length cannot be expressed.",
+    "functions": ["serving::prepare_multipart", "serving::MultipartStream::poll_next", "serving::serve"],
+    "bounds": {"parts": "2 (quick) / 3 (thorough); the property's 2..8 is cut there", "positions": "all u64", "entity headers": "0, 1 or 2 fixed headers"},
+    "outside": ["more than 3 parts", "decimal widths (numeral model; decimal rendering is std's)"],
+    "assumptions": MODEL_ASSUMPTIONS,
+}
+
+PROPS["C07"] = {
+    "units": lambda tier, seed: [unit_body(["exactlen_fault"], panic_tags=("C13", "C20"))],
+    "explanation": "The length-checking stream every serve() body is wrapped in is executed against an ARBITRARY inner stream of 4 "
+    "events (Pending / chunk of any u64 length / error / early end, then end): a clean end implies exactly the announced "
+    "bytes, never more is passed on, an over-long chunk yields an error, polling past the end never yields data.",
+    "functions": ["body::ExactLenStream::poll_next", "body::Body::poll_frame", "body::Body::size_hint"],
+    "bounds": {"events": 4, "polls": 9},
+    "outside": ["faults inside multipart parts (each part is wrapped in the same stream; the multipart state machine under faults is C20's multipart harness)", "more than 4 events"],
+    "assumptions": MODEL_ASSUMPTIONS,
+}
+
+PROPS["C08"] = {
+    "units": lambda tier, seed: [unit_chunker(["chunker_seq_cap1", "chunker_seq_cap2", "chunker_seq_cap3", "chunker_seq_cap4"])],
+    "explanation": "All programs of 4 operations over {write(0..5 symbolic bytes), write_all, flush, poll, nop} on a BodyWriter (raw arm) "
+    "with chunk sizes 1..4, followed by drop and drain: accepted prefixes vs delivered frames byte by byte, non-empty frames, "
+    "flush makes everything available, write accepts >= 1 byte, clean end.",
+    "functions": ["chunker::Writer::write", "chunker::Writer::flush", "chunker::Writer::flush_helper", "chunker::Writer::drop", "chunker::Reader::poll_next", "gzip::BodyWriter::write/flush (Raw arm)"],
+    "bounds": {"operations": 4, "write length": "0..5 bytes", "chunk sizes": "1, 2, 3, 4"},
+    "outside": ["longer histories", "chunk sizes 4096/65536 (same code path, sizes only enter comparisons)", "the gzip arm (flate2 is a marker model)"],
+    "assumptions": MODEL_ASSUMPTIONS,
+}
+PROPS["C10"] = {
+    "units": lambda tier, seed: [unit_chunker(["chunker_inter_cap1", "chunker_inter_cap2"])],
+    "explanation": "As C08, plus abort, with consumer polls (0..2, same or different waker) injected at every lock acquisition and release "
+    "of the producer's operations -- in particular between unlock and wake() -- by the std-model mutex: a parked consumer is "
+    "woken whenever data, the end or an error becomes available; after the writer is gone the body terminates within "
+    "(queued chunks + 2) polls.",
+    "functions": ["chunker::*", "gzip::BodyWriter::abort"],
+    "bounds": {"operations": 4, "scheduling points with consumer polls": 6, "polls per point": "0..2"},
+    "outside": ["interleavings inside std::sync::Mutex itself and weak-memory effects (the mutex is trusted to be a mutex)", "producer steps in the middle of a consumer poll (poll_next is one critical section; re-checked structurally: the model mutex reports a second lock as deadlock)"],
+    "assumptions": MODEL_ASSUMPTIONS,
+}
+PROPS["C11"] = {
+    "units": lambda tier, seed: [
+        unit_chunker(["chunker_abort_cap2", "chunker_abort_cap3", "chunker_body_drop_cap2"]),
+        unit_gzip(["sb_dead_after_abort"]),
+    ],
+    "explanation": "As C08 with abort at any position (terminal event is an error, delivered bytes are a prefix, no end-of-stream claim while the "
+    "error is pending, later writes/flushes fail) and with the response body dropped at any position (a later write+flush must fail).",
+    "functions": ["chunker::Writer::abort", "chunker::Reader (drop)", "gzip::BodyWriter::abort/write/flush"],
+    "bounds": {"operations": 4},
+    "outside": ["gzip arm internals"],
+    "assumptions": MODEL_ASSUMPTIONS,
+}
+PROPS["C12"] = {
+    "units": lambda tier, seed: [
+        unit_body(["body_from", "exactlen_honour"]),
+        unit_chunker(["chunker_seq_cap2", "chunker_abort_cap2"]),
+        unit_serve(lambda c: c["group"] in ("full", "multi") and c["method"] == "GET" and c["ir"] == "absent" and c["nhdr"] <= 1),
+    ],
+    "explanation": "size_hint()/is_end_stream() are sampled before every poll in the body, chunker and serve harnesses: exact hints equal announced minus "
+    "delivered; chunker hints bracket what is still delivered on a clean end; nothing follows is_end_stream().",
+    "functions": ["body::Body::size_hint", "body::Body::is_end_stream", "chunker::Reader::size_hint", "chunker::Reader::is_end_stream"],
+    "bounds": {"see": "C01, C06, C08, C11"},
+    "outside": ["gzip bodies (C09)"],
+    "assumptions": MODEL_ASSUMPTIONS,
+}
+PROPS["C13"] = {
+    "units": lambda tier, seed: [
+        unit_range(),
+        unit_serve(g("m405", "unsat", methods=("POST", "EXT", "GET"))),
+        unit_etag(["etag_list_sym", "etag_match_sym"]),
+    ],
+    "explanation": "Kani's built-in checks (arithmetic overflow, slice bounds, unwrap/expect, unreachable) are the oracle: the Range parser over all "
+    "64-bit numbers and near-miss texts, the tag-list iterator over symbolic bytes, serve() over the structural configurations; 405 + Allow + "
+    "no entity access for other methods.",
+    "functions": ["range::parse", "etag::List::next", "serving::serve"],
+    "bounds": {"header texts": "generated skeletons and near-miss texts, not arbitrary bytes (fully symbolic text is out of reach)"},
+    "outside": ["arbitrary header bytes", "repeated header lines", "modification times before 1970 / after 9999 (httpdate panics there; treated as not well-formed)"],
+    "assumptions": MODEL_ASSUMPTIONS,
+}
+PROPS["C14"] = {
+    "units": lambda tier, seed: [
+        unit_serve(lambda c: c["group"] in ("full", "unsat") or (c["group"] == "single" and c["ir"] in ("absent", "same")), precond=True),
+    ],
+    "explanation": "serve(): Accept-Ranges, ETag bytes, Date/Last-Modified presence, Last-Modified = min(mtime, now) truncated <= Date, entity headers on "
+    "200/206-without-If-Range and absent on 416, with clock and modification time symbolic; parse_modified_hdrs with the date equal "
+    "to the modification second (what an echo of Last-Modified is) is part of C04's symbolic dates.",
+    "functions": ["serving::serve_inner", "serving::parse_modified_hdrs"],
+    "bounds": {"see": "C01, C04"},
+    "outside": ["round trips when the modification time is in the future (Last-Modified is then the clock, which moves)"],
+    "assumptions": MODEL_ASSUMPTIONS,
+}
+PROPS["C15"] = {
+    "units": lambda tier, seed: [
+        unit_serve(g("full", "single", "multi", "unsat", methods=("HEAD",))),
+        unit_gzip(["sb_build_gzip", "sb_build_absent"]),
+    ],
+    "explanation": "Every serve() configuration is also executed with HEAD: same status/headers assertions as GET, empty body with exact hint 0, zero "
+    "get_range calls; streaming_body returns no writer exactly for HEAD.",
+    "functions": ["serving::serve_inner", "StreamingBodyBuilder::build"],
+    "bounds": {"see": "C01"},
+    "outside": [],
+    "assumptions": MODEL_ASSUMPTIONS,
+}
+PROPS["C16"] = {
+    "units": lambda tier, seed: [unit_lib()],
+    "explanation": "should_gzip on generated Accept-Encoding skeletons (1..3 elements over gzip/identity/*/br, weights present or absent, whitespace "
+    "variants) with every weight a symbolic value 0..1000 (crate-private parse_qvalue stubbed), compared with an RFC 7231 5.3.4 model; "
+    "parse_qvalue on all printable strings of <= 6 bytes vs the qvalue grammar; ~60 concrete near-miss values through the real parser.",
+    "functions": ["should_gzip", "parse_qvalue"],
+    "bounds": {"elements": "1..3", "weights": "all 0..=1000 + 'not a qvalue'", "qvalue text": "<= 6 printable ASCII bytes"},
+    "outside": ["lists of 4+ elements", "qvalue texts containing '+' (u16::from_str accepts a sign; not grammatical)", "header text outside the generated shapes"],
+    "assumptions": MODEL_ASSUMPTIONS,
+}
+PROPS["C17"] = {
+    "units": lambda tier, seed: [unit_gzip(SB_BUILD)],
+    "explanation": "streaming_body(&req).build() for Request and Parts, method in {GET, HEAD, POST}, 9 Accept-Encoding values, gzip level a symbolic u32, "
+    "chunk size 1..4: Vary always; Content-Encoding: gzip iff negotiated and level > 0; the writer's arm (gzip encoder vs raw) agrees "
+    "with the header; encoder created with the configured level.",
+    "functions": ["streaming_body", "StreamingBodyBuilder::build", "gzip::BodyWriter::raw/gzipped"],
+    "bounds": {"Accept-Encoding": "9 values", "level": "all u32"},
+    "outside": ["the bytes the real flate2 encoder produces (marker model)"],
+    "assumptions": MODEL_ASSUMPTIONS,
+}
+PROPS["C19"] = {
+    "units": lambda tier, seed: [unit_dir()],
+    "explanation": "validate_path on every ASCII path of <= 7 bytes vs the rule: NUL anywhere, leading '/', or a '/'-separated segment equal to '..'.",
+    "functions": ["dir::validate_path"],
+    "bounds": {"path": "<= 7 bytes"},
+    "outside": ["openat, the .gz substitution, encoding()/add_encoding_headers (behind spawn_blocking and the file system)", "longer paths"],
+    "assumptions": MODEL_ASSUMPTIONS,
+    "level_note_extra": "partial: path validation only",
+}
+PROPS["C20"] = {
+    "units": lambda tier, seed: [
+        unit_body(["exactlen_fault", "exactlen_honour", "body_from"], panic_tags=("C13", "C20")),
+        unit_chunker(["chunker_abort_cap2"], panic_tags=("C13", "C20")),
+    ],
+    "explanation": "After the first terminal event every harness keeps polling (3 more polls): no data, no panic, for the length-checking stream under "
+    "arbitrary inner streams that stay finished once finished, for fixed bodies and for the chunker after clean end and abort.",
+    "functions": ["body::ExactLenStream::poll_next", "chunker::Reader::poll_next", "serving::MultipartStream::poll_next"],
+    "bounds": {"extra polls": 3},
+    "outside": [],
+    "assumptions": MODEL_ASSUMPTIONS,
 }
